@@ -246,6 +246,43 @@ def job_dtype(job, seed):
     return {'obligations': obs, 'candidates': cands, 'paths': len(paths)}
 
 
+F32_RANGES = {'time': (Fraction(1, 10**6), Fraction(1, 10)), 'length': (Fraction(1, 10), Fraction(1000)), 'energy': (Fraction(1602176634, 10**34), Fraction(1602176634, 10**27)),
+              'wavelength': (Fraction(1, 10**11), Fraction(2, 10**9)), 'invlength': (Fraction(10**8), Fraction(10**11)), 'angle': (Fraction(1, 100), Fraction(31, 10))}
+
+
+def job_f32range(job, seed):
+    """All-single-precision operands in symbolic units: every value the kernel materialises in float32 from a wider
+    intermediate (unit-scaled physical constants above all) is zero or a NORMAL float32 number for every unit choice of the
+    quantifier grid (ns..s, angstrom..km, micro-eV..J) and inputs in their ranges; otherwise re-expressing an input in
+    another unit changes the result by far more than rounding."""
+    si, dts = job
+    from symex import core as C
+    from symsc import variable as V
+    from .symutil import f32_range_obligations, fresh_run
+
+    mod, fname, args, outunit, data = SPECS[si]
+    m = _load(mod)
+    fresh_run()
+    f = getattr(m, fname)
+    obs, cands = [], []
+    tag = f'{fname}[{",".join(dts)}]'
+    case = {'kind': 'f32range', 'spec': si, 'fname': fname, 'dtypes': list(dts)}
+    kw = {a: _mk(a, k, None, dt, True) for (a, k), dt in zip(args.items(), dts, strict=True)}
+    V.F32_LOG.clear()
+    C.CTX.fork_timeout_ms = 3000
+    paths = C.explore(lambda: f(**kw))
+    terms = list(V.F32_LOG)
+    sig = {f'sigma_{a}': k for a, k in args.items() if k != 'angle'}
+    rng = {a: (*F32_RANGES[k], None) for a, k in args.items() if k != 'angle'}
+    o2, bad, notes = f32_range_obligations(f'{tag}:f32range', terms, sig, rng)
+    obs += [ob_dict(o) for o in o2]
+    ob = C.prove(f'{tag}:f32range:explored ({len(paths)} paths, {len(terms)} single-precision materialisations, {len(o2)} range-checked)', C.B.const(any(p.exc is None and not p.inconclusive for p in paths)))
+    obs.append(ob_dict(ob))
+    for term, units in bad:
+        cands.append((f'C07:{fname}:float32-range', {**case, 'units': {k[len("sigma_"):]: v for k, v in units.items()}}, f'{term} is subnormal / zero / out of range in float32 for units {units}'))
+    return {'obligations': obs, 'candidates': cands, 'paths': len(paths), 'notes': notes}
+
+
 def job_dtype_shapes(job, seed):
     """The dtype contract of the gravity kernels does not depend on how the operands broadcast: a single-precision
     wavelength gives single-precision angles also when the scattered beam carries a dimension the wavelength lacks
@@ -396,6 +433,15 @@ def run(chk):
     ijobs = [(si, a) for si, (mod, fname, args, outunit, data) in enumerate(SPECS) if data is not None and fname not in EQUIV_ELSEWHERE
              for a in args if args[a] in ALT_UNIT and (a in data or chk.tier == 'thorough')]
     run_jobs(chk, job_int, ijobs)
+    scalar_kinds = {'time', 'length', 'energy', 'wavelength', 'invlength', 'angle'}
+    fjobs = []
+    for si, (mod, fname, args, outunit, data) in enumerate(SPECS):
+        if data is None or not set(args.values()) <= scalar_kinds:
+            continue
+        fjobs.append((si, ('float32',) * len(args)))
+        # single-precision data operand(s) next to double-precision geometry / parameters
+        fjobs.append((si, tuple('float32' if a in data else 'float64' for a in args)))
+    run_jobs(chk, job_f32range, fjobs)
     run_jobs(chk, job_dtype_shapes, [(fn_, dt_, g_) for fn_ in ('scattering_angles_with_gravity', 'scattering_angle_in_yz_plane') for dt_ in ('float32', 'float64') for g_ in ('perpendicular', 'tilted')])
     from . import shimval
     shimval.validate(chk, 'kinematics-dtypes', 60 if chk.tier == 'quick' else 300)
@@ -460,12 +506,25 @@ def replay_real(case):
                 if not (x == y or abs(x - y) <= 1e-10 * abs(y)):
                     bad.append(f'{fname}({which}={nval} {ALT_UNIT[args[which]]}): int64 gives {x!r}, float64 gives {y!r}')
         return {'reproduced': bool(bad), 'detail': '; '.join(bad[:2])}
+    if case.get('kind') == 'f32range' and 'energy_transfer' in fname:
+        from . import c05_inelastic
+        u = case.get('units', {})
+        mode = 'direct' if 'direct' in fname else 'indirect'
+        earg = 'incident_energy' if mode == 'direct' else 'final_energy'
+        d = case['dtypes']
+        names_ = list(args)
+        c5 = {'mode': mode, 'dtypes': [d[names_.index('tof')], d[names_.index('L1')], d[names_.index('L2')], d[names_.index(earg)]], 'via_graph': False,
+              'units': {'sigma_E': u.get(earg, 'J'), 'sigma_t': u.get('tof', 's'), 'sigma_L1': u.get('L1', 'm'), 'sigma_L2': u.get('L2', 'm')}}
+        return c05_inelastic.replay_real(c5)
     rng = np.random.default_rng(3)
     dts = case['dtypes']
     alts = {'time': ['s', 'ms', 'us', 'ns'], 'length': ['m', 'mm', 'km'], 'energy': ['J', 'meV', 'eV', 'ueV'], 'wavelength': ['m', 'angstrom', 'nm'],
             'invlength': ['1/m', '1/angstrom'], 'angle': ['rad', 'deg'], 'vlength': ['m', 'mm'], 'vaccel': ['m/s^2', 'cm/s^2'], 'abs_time': ['s', 'us']}
     rng_si = {'time': (1e-5, 1e-1), 'length': (1.0, 100.0), 'energy': (1.6e-23, 1.6e-20), 'wavelength': (5e-11, 2e-9), 'invlength': (1e8, 1e11),
               'angle': (0.05, 3.0), 'abs_time': (1e-3, 1e-1)}
+    if case.get('kind') == 'f32range':
+        alts['length'] = ['m', 'mm', 'km', 'cm', 'nm', 'angstrom']
+        alts['invlength'] = ['1/m', '1/angstrom', '1/nm']
     bad = []
     same = {}
     for grp in SAME_UNIT_GROUPS.get(fname, []):
@@ -503,7 +562,7 @@ def replay_real(case):
             bad.append(f'raises {type(e).__name__}: {e}')
             break
         names = list(args)
-        for units in it.islice(it.product(*[alts[k] for k in args.values()]), 0, 200):
+        for units in it.islice(it.product(*[alts[k] for k in args.values()]), 0, 200 if case.get('kind') != 'f32range' else 2000):
             units = list(units)
             for a, b in same.items():
                 units[names.index(a)] = units[names.index(b)]
